@@ -63,6 +63,7 @@ def run(ck):
     spec_tables(ck)
     spec_precedence(ck)
     literal_path(ck)
+    stateless_tokens(ck)
 
 
 def token_fns(F, method):
@@ -564,3 +565,42 @@ def literal_path(ck):
         else:
             ck.ob("C12-O2", sitestr(pp, tgt), None, "the literal text receives %s; idiom not recognised" % describe(a)[:60])
     ck.ob("C12-O2", sitestr(pp), n_w >= 3, "%d writes to the literal accumulator, each a single pattern character, a constant, or a run cut at '%%'" % n_w, key="parsePattern|literal-writes")
+
+
+def stateless_tokens(ck):
+    """the output is a function of (pattern, current message): a token object keeps nothing from one message to the next"""
+    F = ck.facts
+    ck.rule("C12-O5", "tokens are stateless between messages: no mutable data member in any token class or in the formatter's private class, no non-const "
+                      "function-local static in their methods, no member written by a const method (a memo keyed on a pointer or on the previous message returns an earlier message's value)")
+    base = [q for q in F.records if q.endswith("::Token") and "Formatter" not in q.split("::")[-1]]
+    ck.require(len(base) == 1, "Token base class not found")
+    classes = sorted(F.subclasses(base[0]) | {base[0]} | {q for q in F.records if q.endswith("PatternFormatter::PatternFormatterPrivate")})
+    ck.require(len(classes) >= 14, "only %d token classes found (16 confirmed by hand)" % len(classes))
+    for q in classes:
+        rec = F.records[q]
+        short = q.split("::")[-1]
+        mut = [f_["name"] for f_ in rec.get("fields", []) if f_.get("mutable")]
+        statics = []
+        writes = []
+        for f in sorted((x for x in F.fns.values() if x.cls == q and x.body is not None), key=lambda x: x.sig):
+            ck.touch(f)
+            for d in f.find(lambda n: n.get("k") == "decl"):
+                for v in d.get("vars", []):
+                    if v.get("static") and not v.get("const"):
+                        statics.append((f, d, v.get("name")))
+            if f.d.get("constm"):
+                for fld in rec.get("fields", []):
+                    for wf, wn, how in field_writes(F, q + "::" + fld["name"]):
+                        if wf.id == f.id:
+                            writes.append((f, wn, fld["name"]))
+        bad = mut or statics or writes
+        site = sitestr(statics[0][0], statics[0][1]) if statics else sitestr(writes[0][0], writes[0][1]) if writes else "%s (class %s)" % (rec.get("file", "patternformatter.cpp").split("/src/")[-1], short)
+        why = []
+        if mut:
+            why.append("mutable member(s) %s" % ", ".join(mut))
+        if statics:
+            why.append("function-local static %s in %s" % (statics[0][2], statics[0][0].name.split("::")[-1]))
+        if writes:
+            why.append("%s written by the const method %s" % (writes[0][2], writes[0][0].name.split("::")[-1]))
+        ck.ob("C12-O5", site, not bad, "%s keeps no state between messages" % short if not bad else
+              "%s keeps state across messages (%s): what it prints can come from an earlier message" % (short, "; ".join(why)), key="%s|stateful" % short)
